@@ -485,6 +485,20 @@ func (p *Path) pureDef(instr ssa.Instruction) (string, bool) {
 			return r.T, true
 		}
 	case *ssa.Slice:
+		// slicing a pointer to an array does not read memory: the slice value is a function of the pointer and bounds
+		if pt, ok := i.X.Type().Underlying().(*types.Pointer); ok {
+			if at, ok := pt.Elem().Underlying().(*types.Array); ok {
+				get := func(v ssa.Value, def string) string {
+					if v == nil {
+						return def
+					}
+					return p.val(v).T
+				}
+				n := fmt.Sprint(at.Len())
+				lo, hi, mx := get(i.Low, "0"), get(i.High, n), get(i.Max, n)
+				return fmt.Sprintf("(mk_slice %s %s (- %s %s) (- %s %s))", p.val(i.X).T, lo, hi, lo, mx, lo), true
+			}
+		}
 		if _, isStr := i.X.Type().Underlying().(*types.Basic); isStr {
 			x := p.val(i.X)
 			lo, hi := "0", "(slen "+x.T+")"
